@@ -66,6 +66,10 @@ def gen_desc(seed, tier):
         "faults": scenario.gen_faults(r, "process", 4, p_none=0.5, kinds=["objective_slow", "stalled_worker", "ac_order"]),
         "resolve_mode": r.choice(["serial", "thread"]),
     }
+    # the tuner may have been used before: an earlier campaign on another task (other direction / shifted costs)
+    if not real and r.random() < 0.3:
+        d["prior_execute"] = {"minmax": r.choice(["min", "max"]), "shift": r.choice([-50.0, 100.0, 0.0]),
+                              "n_trials": r.choice([1, 2]), "grid": subgrid() if r.random() < 0.5 else None}
     return d
 
 
@@ -160,6 +164,22 @@ def execute(desc):
     exc = None
     try:
         with contextlib.redirect_stdout(buf):
+            pe = desc.get("prior_execute")
+            if pe:
+                # earlier campaign on the same HyperTuner instance; its outcome is not the subject
+                try:
+                    pt = dict(IDENTITY_TASK, minmax=pe["minmax"])
+                    pt["objective"] = dict(pt["objective"], const=-pe["shift"])
+                    if pe.get("grid"):
+                        tuner._param_grid = copy.deepcopy(pe["grid"])
+                    tuner.execute(task=tasks.build_task(pt), n_trials=pe["n_trials"], n_jobs=2, mode="serial")
+                    sim.count("prior_execute_calls")
+                except kernel.SimAbort:
+                    raise
+                except BaseException:
+                    sim.count("prior_execute_failed")
+                tuner._param_grid = copy.deepcopy(desc["grid"])
+                sim.obs["party_runs"] = []
             try:
                 tuner.execute(task=task, n_trials=desc["n_trials"], n_jobs=desc["n_jobs"], mode=desc["mode"],
                               n_workers=desc["n_workers"])
